@@ -1290,6 +1290,98 @@ M("C07", "R-fraction-inlined-before-update", ANIMF,
                 )
                 self.NE_balance.kcals = self.NE_balance.kcals - NE_provided''', None)
 
+# ---------------------------------------------------------------------------- C06
+M("C06", "additive-subtracted", ANIMF,
+  '''            animal.current_population
+            - new_other_animal_death
+            + new_additive_animals_month''', '''            animal.current_population
+            - new_other_animal_death
+            - new_additive_animals_month''', "C06.LEDGER")
+M("C06", "records-allocated-not-applied", ANIMF,
+  '''        current_slaughter_rate = AnimalPopulation.calculate_animal_population(
+            animal,''', '''        applied_slaughter_rate = AnimalPopulation.calculate_animal_population(
+            animal,''', "C06.RECORD")
+M("C06", "target-floor-ignored", ANIMF,
+  '''            actual_slaughter_rate = (
+                new_animal_population_pre_slaughter - animal.target_population_head
+            )''', '''            actual_slaughter_rate = new_slaughter_rate''', "C06.LEDGER")
+M("C06", "final-step-forgets-starving-homekill", ANIMF,
+  '''            + animal.homekill_healthy_this_month[-1]
+            + animal.homekill_starving_this_month[-1]
+        )''', '''            + animal.homekill_healthy_this_month[-1]
+        )''', "C06.LEDGER")
+M("C06", "final-step-no-clamp", ANIMF,
+  '''        if animal.current_population < 0:
+            animal.current_population = 0
+            # and BUG might exist''', '''        if animal.current_population < 0:
+            pass
+            # and BUG might exist''', "C06.LEDGER")
+M("C06", "rate-ignores-remaining-hours", ANIMF,
+  '''                allocated_hours = min(
+                    hours_to_slaughter_this_type, remaining_hours_this_size
+                )''', '''                allocated_hours = hours_to_slaughter_this_type''', "C06.SLAUGHTER")
+M("C06", "hours-budget-not-reduced", ANIMF,
+  '''        remaining_hours_this_size -= allocated_hours
+''', '', "C06.SLAUGHTER")
+M("C06", "budget-computed-once", ANIMF,
+  '''        hours_by_size_dict = calculate_net_slaughter_hours_by_size(all_animals)
+
+        for animal in all_animals:
+            assert animal.animal_size in [''', '''        for animal in all_animals:
+            assert animal.animal_size in [''', "C06.SLAUGHTER",
+  more=[(ANIMF, '''    for month in range(0, months_to_run):
+        country_object.month = month''', '''    hours_by_size_dict = calculate_net_slaughter_hours_by_size(all_animals)
+    for month in range(0, months_to_run):
+        country_object.month = month''')])
+M("C06", "transfer-without-retirements", ANIMF,
+  '''                    transfer_populations[animal.animal_species] = (
+                        animal.retiring_milk_head_monthly() + new_transfer_births
+                    )''', '''                    transfer_populations[animal.animal_species] = (
+                        new_transfer_births
+                    )''', "C06.XFER")
+M("C06", "meat-herd-misses-transfer", ANIMF,
+  '''                new_additive_animals_month = (
+                    births[animal.animal_type]
+                    + transfer_populations[animal.animal_species]
+                )''', '''                new_additive_animals_month = (
+                    births[animal.animal_type]
+                )''', "C06.XFER")
+M("C06", "retirements-not-subtracted", ANIMF,
+  '''            new_other_animal_death + retiring_animals,
+            current_slaughter_rate,''', '''            new_other_animal_death,
+            current_slaughter_rate,''', "C06.RECORD")
+M("C06", "calf-culling-ignored", ANIMF,
+  '''        return new_births_animals_month, new_export_births_animals_month * (
+            1 - animal.transfer_culling_fraction
+        )''', '''        return new_births_animals_month, new_export_births_animals_month''', "C06.XFER")
+M("C06", "final-before-starvation-recorded", ANIMF,
+  '''            # FINALLY WE CAN Calculate THE NEW POPULATION
+            AnimalPopulation.calculate_final_population(animal)''', '''            # FINALLY WE CAN Calculate THE NEW POPULATION''', "C06.RECORD",
+  more=[(ANIMF, '''            AnimalPopulation.calculate_other_death_homekill_head(
+                animal, country_object
+            )''', '''            AnimalPopulation.calculate_final_population(animal)
+            AnimalPopulation.calculate_other_death_homekill_head(
+                animal, country_object
+            )''')])
+M("C06", "R-ledger-rearranged", ANIMF,
+  '''        new_animal_population_pre_slaughter = (
+            animal.current_population
+            - new_other_animal_death
+            + new_additive_animals_month
+        )''', '''        new_animal_population_pre_slaughter = (
+            new_additive_animals_month
+            + animal.current_population
+            - new_other_animal_death
+        )''', None)
+M("C06", "R-target-arm-rewritten", ANIMF,
+  '''        elif (
+            new_animal_population_pre_slaughter - new_slaughter_rate
+            < animal.target_population_head
+        ):''', '''        elif (
+            new_animal_population_pre_slaughter - animal.target_population_head
+            < new_slaughter_rate
+        ):''', None)
+
 # ---------------------------------------------------------------------------- runner
 
 COPY = ["src", "scenarios", "scripts", "plot_manuscript_figures.py", "tests"]
